@@ -13,6 +13,7 @@ analysis.
 from __future__ import annotations
 
 import collections
+import os
 import random
 import warnings
 
@@ -344,11 +345,12 @@ def run(tier, seed):
   if tier == "quick":
     nprog, per, nblocks, max_pairs, n_sa = 64, 4, (3, 7), 18, 4
   else:
-    nprog, per, nblocks, max_pairs, n_sa = 640, 10, (4, 12), 40, 8
+    nprog, per, nblocks, max_pairs, n_sa = 480, 10, (4, 12), 40, 8
+  nprog = int(os.environ.get("VERIF_C03_NPROG", nprog))   # development aid only
   seeds = [f"{seed}-{i}-{rng.randrange(1 << 30)}" for i in range(nprog)]
   tasks = []
   for i in range(0, nprog, per):
-    tasks.append({"fn": "vf.checks.c03:child", "id": f"b{i // per}", "timeout": 1500, "hashseed": "0",
+    tasks.append({"fn": "vf.checks.c03:child", "id": f"b{i // per}", "timeout": 5400, "hashseed": "0",
                   "arg": {"seeds": seeds[i:i + per], "nblocks": list(nblocks), "max_pairs": max_pairs,
                           "n_standalone": n_sa, "compile_slice": i == 0}})
   classes, kinds = collections.Counter(), collections.Counter()
